@@ -127,6 +127,16 @@ class Ctx:
                 known.append((f, m))
             else:
                 viol.append(f)
+        # a refuted obligation without concrete input borrows the failing input that the bounded search of the same
+        # contract found on the real code (replayed counterexample)
+        with_input = [f for f in self.failures if f.has_input and f.input is not None]
+        for f in self.failures:
+            if not f.has_input and with_input:
+                fn = (f.function or '').split('::')[-1].split('.')[-1]
+                cand = [g for g in with_input if fn and fn in (g.function or '')] or with_input
+                g = cand[0]
+                f.input, f.observed, f.expected, f.has_input = g.input, g.observed, g.expected, True
+                f.what += ' [concrete failing input found by the bounded search of the same contract]'
         # replay files
         lines = []
         seen_known = set()
